@@ -21,31 +21,32 @@ import core
 
 PROP = "C18"
 IMPORTS = "C18.Model"
-SHARD = 12
+SHARD = 6
 RULE = ("method in {MMDCritic, ProtoDash, ProtoGreedy}; data: uniform dyadic grid / clustered / far-apart sites with "
-        "duplicates (0/1 kernel matrix, exact ties), N in 1..14 (ProtoGreedy <= 10), d in 1..3, gamma in "
-        "{None,.25,.5,1,2,4}, optional linear projection, batch size in 1..N+1 or None, nb_global_prototypes in 1..N, "
+        "duplicates (0/1 kernel matrix, exact ties), N in 1..14 (ProtoDash <= 12 with <= 7 prototypes, ProtoGreedy <= 8 with <= 5 prototypes: exact inverses), d in 1..3, gamma in "
+        "{None,1/16..1} (sites: 1..4), optional linear projection, batch size in 1..N+1 or None, nb_global_prototypes in 1..N, "
         "k in 1..nb_global_prototypes, distance in {None(kernel-induced), euclidean, manhattan, chebyshev}; every case is "
         "also run with a second batch size (implementation vs implementation); distinct = different canonical JSON; "
         "non-trivial = at least two batches, or a remainder batch, and at least two prototypes compared")
 ASSUMPTIONS = [
-    "the kernel matrix given to the model is the object's kernel_fn on all pairs (symmetric: lower triangle mirrored); "
+    "the kernel matrix given to the model is the object's kernel_fn on all pairs (symmetric: lower triangle mirrored, "
+    "values rounded to the absolute grid 2^-24); "
     "kernel_fn evaluated on a pair of batches returns the corresponding block up to float32 rounding (1 ulp of exp)",
     "tf.argmax returns the first maximiser; tf.linalg.inv is the exact inverse up to float32 error bounded through the "
     "conditioning guard (cond(K_S + 1e-6 I) <= %s)" % 60,
-    "arg-max steps closer than MARGIN=2e-4 (objective units) are not compared (counted as skipped / truncated)",
+    "arg-max steps closer than MARGIN (5e-5 MMDCritic / ProtoDash, 2e-4 ProtoGreedy, objective units) are not compared (counted as skipped / truncated)",
     "tolerances: weights 2e-3 absolute (float32 inverse, cond <= 60), MMDCritic weights / column means / diag 2e-6, "
     "local distances 1e-4",
 ]
 EXTRA_COVERAGE = {}
 
-MARGIN = 2e-4
+MARGIN = {"mmd": 5e-5, "dash": 5e-5, "greedy": 2e-4}
 CMAX = 60.0
 TOL_W = {"mmd": 2e-6, "dash": 2e-3, "greedy": 2e-3}
 TOL_T = 4e-6
 TOL_D = 1e-4
 TOL_K = 2e-6
-EPS32 = float(np.float32(1e-6))
+EPS32 = 17 / 2.0 ** 24     # EPSILON = 1e-6 on the 2^-24 grid (1.013e-6): irrelevant at cond <= 60, keeps rationals small
 METHODS = {"mmd": "MMDCritic", "dash": "ProtoDash", "greedy": "ProtoGreedy"}
 
 
@@ -54,13 +55,26 @@ def dy(rng, lo, hi, den):
     return rng.randint(lo * den, hi * den) / den
 
 
+def distinct(rng, draw, n, p_dup=0.04):
+    """n draws, duplicates mostly rejected (a duplicated case is an exact tie, decided by rounding)"""
+    out = []
+    for _ in range(n):
+        x = draw()
+        tries = 0
+        while x in out and rng.random() >= p_dup and tries < 50:
+            x = draw()
+            tries += 1
+        out.append(x)
+    return out
+
+
 def gen_points(rng, kind, n, d):
     if kind == "uniform":
-        return [[dy(rng, -2, 2, 4) for _ in range(d)] for _ in range(n)]
+        return distinct(rng, lambda: [dy(rng, -2, 2, 8) for _ in range(d)], n)
     if kind == "clustered":
         nc = rng.randint(1, 3)
         centres = [[float(rng.randint(-2, 2)) for _ in range(d)] for _ in range(nc)]
-        return [[c + rng.randint(-3, 3) / 8 for c in centres[rng.randrange(nc)]] for _ in range(n)]
+        return distinct(rng, lambda: [c + rng.randint(-4, 4) / 8 for c in centres[rng.randrange(nc)]], n)
     # sites: far-apart sites (kernel exactly 0 between sites in float32), duplicates inside a site (kernel 1)
     ns = rng.randint(1, max(1, n))
     sites = rng.sample([[16.0 * a, 16.0 * b, 16.0 * c][:d] for a in range(-2, 3) for b in range(-2, 3) for c in range(-1, 2)], 40)
@@ -71,8 +85,8 @@ def gen_points(rng, kind, n, d):
 def gen_case(rng, tier):
     method = rng.choice(["mmd", "mmd", "dash", "greedy", "greedy"])
     kind = rng.choice(["uniform", "uniform", "clustered", "sites"])
-    nmax = 10 if method == "greedy" else 14
-    n = rng.choice([1, 2, 3, rng.randint(2, nmax), rng.randint(4, nmax), rng.randint(4, nmax)])
+    nmax = {"greedy": 8, "dash": 12, "mmd": 14}[method]
+    n = rng.choice([1, 2, 3] + [rng.randint(3, nmax), rng.randint(4, nmax), rng.randint(4, nmax), rng.randint(5, nmax)] * 2)
     d = rng.randint(1, 3)
     X = gen_points(rng, kind, n, d)
     if kind == "sites" and method == "greedy" and rng.random() < 0.7:
@@ -81,17 +95,18 @@ def gen_case(rng, tier):
         pool = [list(t) for t in sorted({tuple(p) for p in pool})]
         X = rng.sample(pool, min(n, len(pool)))
         n = len(X)
-    gamma = rng.choice([None, 0.25, 0.5, 1.0, 2.0, 4.0])
+    gamma = rng.choice([None, None, 0.0625, 0.125, 0.25, 0.5, 1.0])
     if kind == "sites":
         gamma = rng.choice([None, 1.0, 2.0]) if d == 1 else rng.choice([1.0, 2.0, 4.0])
     proj = None
     if kind != "sites" and rng.random() < 0.25:
         d2 = rng.randint(1, 3)
         proj = [[rng.choice([-1, -0.5, 0, 0.5, 1, 2]) for _ in range(d2)] for _ in range(d)]
-    npmax = n if method != "greedy" else min(n, 7)
-    nproto = rng.choice([1, npmax, npmax, rng.randint(1, npmax), rng.randint(1, npmax), max(1, npmax - 1)])
-    bs = rng.choice([1, 2, 3, max(1, n - 1), n, n + 1, None, rng.randint(1, n + 1), rng.randint(1, n + 1),
-                     rng.randint(1, max(1, n // 2))])
+    npmax = min(n, {"greedy": 5, "dash": 7, "mmd": 14}[method])
+    nproto = rng.choice([1, npmax, npmax, rng.randint(1, npmax), rng.randint(2, max(2, npmax)), rng.randint(2, max(2, npmax)), max(1, npmax - 1)])
+    nproto = min(nproto, npmax)
+    bs = rng.choice([1, 2, 3, max(1, n - 1), n, n + 1, None, rng.randint(1, n + 1), rng.randint(2, max(2, n // 2 + 1)),
+                     rng.randint(2, max(2, n // 2 + 1)), rng.randint(2, max(2, n // 2 + 1))])
     eff = n if bs is None else min(bs, n)
     others = [b for b in range(1, n + 1) if b != eff]
     bs2 = rng.choice(others) if others else None
@@ -104,7 +119,7 @@ def gen_case(rng, tier):
 
 
 def generate(rng, tier):
-    n = 110 if tier == "quick" else 1200
+    n = 90 if tier == "quick" else 1200
     return [gen_case(rng, tier) for _ in range(n)]
 
 
@@ -168,7 +183,7 @@ def reference(method, K, nproto):
         vals, conds = zip(*[objective64(method, K, cm, sel, c) for c in cands])
         vals = np.array(vals)
         best = int(np.argmax(vals))                       # first maximiser
-        near = [i for i in range(len(cands)) if i != best and vals[best] - vals[i] < MARGIN]
+        near = [i for i in range(len(cands)) if i != best and vals[best] - vals[i] < MARGIN[method]]
         ok = max(conds) <= CMAX
         if near and ok:
             # exact ties are decided by the first-index rule when float32 provably ties too:
@@ -273,7 +288,9 @@ def run_impl(case):
     Kimpl = np.asarray(sm.kernel_fn(Xp32, Xp32)).astype(np.float64)
     Kl = np.tril(Kimpl)
     Ksym = Kl + np.tril(Kimpl, -1).T
-    res["K"] = Ksym.tolist()
+    # rounded to the absolute grid 2^-24 (half a float32 ulp at 1.0): keeps the exact rational arithmetic of the
+    # Coq model cheap (common denominator); the rounding is of the order of the float32 error of exp itself
+    res["K"] = (np.round(Ksym * 2.0 ** 24) / 2.0 ** 24).tolist()
     # documented kernel: exp(-gamma |x-y|^2), gamma default 1 / nb_features (of the search space)
     gamma32 = float(np.float32(case["gamma"] if case["gamma"] is not None else 1.0 / Xp.shape[1]))
     sq = ((Xp[:, None, :] - Xp[None, :, :]) ** 2).sum(-1)
